@@ -85,8 +85,9 @@ class C20(Check):
     level = "exploration"
     technique = "generated (codec chain x content class x size x write API x operation x solid position) cases executed in fresh child processes; peak resident set (VmHWM) growth over the post-import baseline as oracle, extracted length/CRC against the generator's"
     rule = ("one large member (quick: 1.07 GiB; thorough: 0.5 / 1.5 / 4 GiB - always above the 700 MiB budget and far above the 128 MB chunk) "
-            "produced by a deterministic stream source (zeros, period 7, period 64 KiB, PRNG-incompressible), alone or first/last/between small "
-            "members of the solid block, under each codec family (Copy, LZMA2, LZMA, BZip2, Deflate, Deflate64, ZStandard, Brotli, PPMd) also behind "
+            "produced by a deterministic stream source (zeros, period 7, period 64 KiB, PRNG-incompressible, 64 KiB PRNG runs alternating with "
+            "64 KiB of zeros), alone or first/last/between small members of the solid block, or four such members in four folders (extracted "
+            "side by side), under each codec family (Copy, LZMA2, LZMA, BZip2, Deflate, Deflate64, ZStandard, Brotli, PPMd) also behind "
             "BCJ / Delta and under 7zAES; written with writef (stream) or write (real file) in one child process - into a new archive or appended to an existing one (mode 'a') - then extractall(path) / "
             "extractall(streaming WriterFactory) / testzip in another, with no data-segment limit or under a finite soft RLIMIT_DATA of 4..8 GiB (ulimit -d). Oracle: peak RSS growth of each child <= 700 MiB and the delivered "
             "length and CRC-32 equal the generator's. Every case is non-trivial (member > budget); distinct by (chain, content, size, op, write "
@@ -121,7 +122,10 @@ class C20(Check):
         cases = [c + ("w", None) for c in quick_cases]
         # the big member added by an append session; extraction under a finite soft RLIMIT_DATA (`ulimit -d`)
         cases += [("LZMA2", "period64k", "extract-factory", "writef", "alone", False, "a", None), ("Copy", "random", "testzip", "write", "last", False, "a", None),
-                  ("LZMA2", "zeros", "extract-factory", "writef", "alone", False, "w", 6 << 30), ("ZStandard", "zeros", "extract-path", "writef", "alone", False, "w", 5 << 30)]
+                  ("LZMA2", "zeros", "extract-factory", "writef", "alone", False, "w", 6 << 30), ("ZStandard", "zeros", "extract-path", "writef", "alone", False, "w", 5 << 30),
+                  # four folders (extracted side by side when opened by name), and data that compresses to about one half
+                  ("LZMA2", "zeros", "extract-factory", "writef", "folders4", False, "w", None), ("Copy", "zeros", "testzip", "writef", "folders4", True, "w", None),
+                  ("ZStandard", "half", "extract-factory", "writef", "alone", False, "w", None), ("ZStandard", "half", "extract-path", "writef", "alone", True, "w", None)]
         if not env.quick:
             cases += [("PPMd", "zeros", "extract-factory", "writef", "alone", False, "w", None), ("LZMA2", "zeros", "extract-factory", "writef", "alone", True, "w", None),
                       ("Deflate64", "zeros", "extract-path", "writef", "alone", False, "w", None)]
@@ -139,9 +143,9 @@ class C20(Check):
     def strategy(self, env):
         if env.quick:
             return None
-        return st.fixed_dictionaries({"codec": st.sampled_from(sorted(CODECS)), "content": st.sampled_from(["zeros", "zeros", "period7", "period64k", "random"]),
+        return st.fixed_dictionaries({"codec": st.sampled_from(sorted(CODECS)), "content": st.sampled_from(["zeros", "zeros", "period7", "period64k", "random", "half"]),
                                       "size_mb": st.sampled_from([512, 1536, 4096]), "op": st.sampled_from(OPS), "wapi": st.sampled_from(["writef", "write"]),
-                                      "position": st.sampled_from(["alone", "first", "last", "middle"]), "aes": st.sampled_from([False, False, True]),
+                                      "position": st.sampled_from(["alone", "first", "last", "middle", "folders4"]), "aes": st.sampled_from([False, False, True]),
                                       "wmode": st.sampled_from(["w", "w", "a"]), "rlimit_data": st.sampled_from([None, None, 4 << 30, 8 << 30]),
                                       "seed": st.integers(1, 999)}).filter(
             lambda c: not (c["content"] == "random" and (c["codec"] in ("BZip2", "PPMd", "X86+PPMd", "ARM+BZip2", "Deflate64", "LZMA", "X86+LZMA") or c["size_mb"] > 1536))
@@ -169,10 +173,14 @@ class C20(Check):
         try:
             small = [["s1.txt", "period7", 3000, 1], ["s2.bin", "random", 70000, 2]]
             bigm = ["big.bin", case["content"], size, case["seed"]]
-            members = {"alone": [bigm], "first": [bigm] + small, "last": small + [bigm], "middle": small[:1] + [bigm] + small[1:]}[case["position"]]
+            if case["position"] == "folders4":
+                members = [["big%d.bin" % j, case["content"], size // 4 + (64 << 20), case["seed"] + j] for j in range(4)]
+            else:
+                members = {"alone": [bigm], "first": [bigm] + small, "last": small + [bigm], "middle": small[:1] + [bigm] + small[1:]}[case["position"]]
             apath = os.path.join(work, "a.7z")
             spec = {"repo": REPO, "op": case["wapi"], "filters": filters, "password": pw, "archive": apath, "members": members,
-                    "srcfile": os.path.join(work, "src.bin"), "rlimit_as": CAP, "append": wmode == "a", "rlimit_data": rdata}
+                    "srcfile": os.path.join(work, "src.bin"), "rlimit_as": CAP, "append": wmode == "a", "rlimit_data": rdata,
+                    "one_folder_each": case["position"] == "folders4"}
             w = run_child(spec, 1700)
             sig = {"codec": case["codec"], "aes": case["aes"]}
             if wmode == "a":
